@@ -307,7 +307,15 @@ func init() {
 					}
 				case k < 16:
 					if subOpen {
-						if q == 1 {
+						if r.Intn(6) == 0 {
+							// the subscriber sends its acknowledgement and vanishes before the broker's answer arrives
+							t := "PUBACK"
+							if q == 2 {
+								t = pick(r, []string{"PUBREC", "PUBREC", "PUBCOMP"})
+							}
+							emit(fmt.Sprintf("bk.sendcut %d %s id=%d", subConn, t, ackNext))
+							subOpen = false
+						} else if q == 1 {
 							emit(fmt.Sprintf("bk.send %d PUBACK id=%d", subConn, ackNext))
 						} else {
 							emit(fmt.Sprintf("bk.send %d PUBREC id=%d", subConn, ackNext))
@@ -365,6 +373,9 @@ func init() {
 				}
 				emit(fmt.Sprintf("bk.acl %s %s %s", hs(pick(r, ids)), hs(what), pick(r, []string{"r", "r", "w"})))
 			}
+			if r.Intn(3) == 0 { // an OnPublish hook verdict on one topic (bare or wrapped sentinel, or a plain error)
+				emit(fmt.Sprintf("bk.pubhook %s %s", hs(pick(r, topics)), pick(r, []string{"reject", "ignore", "err", "wreject", "wignore"})))
+			}
 			next := 1
 			open := map[string]int{}
 			ver := map[string]int{}
@@ -420,6 +431,62 @@ func init() {
 				case k < 19:
 					emit(fmt.Sprintf("bk.drop %d", c))
 					delete(open, id)
+				default:
+					emit("bk.dump")
+				}
+			}
+			emit("bk.dump")
+		}
+	}}
+	// message expiry (C25): server maximum 0/50/1000, publisher intervals 0/10/100/5000, retained messages and
+	// messages queued for offline sessions, housekeeping ticks at chosen virtual times, late subscribers and
+	// resumptions
+	suites["brokerexpiry"] = suite{gen: func(r *rand.Rand, n int, emit func(string)) {
+		topics := []string{"a", "a/b", "x"}
+		for done := 0; done < n; {
+			emit("reset")
+			emit(fmt.Sprintf("bk.new msgexp=%d", pick(r, []int{0, 0, 50, 1000})))
+			emit(fmt.Sprintf("bk.conn 1 5 1 %s", hs("pub")))
+			emit(fmt.Sprintf("bk.conn 2 5 0 %s sei=100000", hs("sub")))
+			emit(fmt.Sprintf("bk.send 2 SUBSCRIBE id=9 f=%s:1", hs("a/#")))
+			subConn, subOpen, next := 2, true, 3
+			pid := 20
+			for i, l := 0, 10+r.Intn(20); i < l; i++ {
+				done++
+				switch k := r.Intn(20); {
+				case k < 8:
+					me := pick(r, []int{0, 10, 10, 100, 5000})
+					extra := ""
+					if me > 0 {
+						extra = fmt.Sprintf(" me=%d", me)
+					}
+					if r.Intn(2) == 0 {
+						extra += " r=1"
+					}
+					q := r.Intn(2)
+					emit(fmt.Sprintf("bk.send 1 PUBLISH q=%d id=%d t=%s p=%s%s", q, 1+r.Intn(3), hs(pick(r, topics)), hs(fmt.Sprintf("e%d", done)), extra))
+				case k < 11:
+					emit(fmt.Sprintf("bk.tick %s %d", pick(r, []string{"retained", "retained", "inflight"}), pick(r, []int{5, 30, 60, 200, 2000, 20000})))
+				case k < 14:
+					pid++
+					c := next
+					next++
+					emit(fmt.Sprintf("bk.conn %d 5 1 %s", c, hs(fmt.Sprintf("late%d", c))))
+					emit(fmt.Sprintf("bk.send %d SUBSCRIBE id=%d f=%s:1", c, pid, hs(pick(r, []string{"#", "a/#", "x", "+"}))))
+				case k < 17:
+					if subOpen {
+						emit(fmt.Sprintf("bk.drop %d", subConn))
+						subOpen = false
+					} else {
+						subConn = next
+						next++
+						emit(fmt.Sprintf("bk.conn %d 5 0 %s sei=100000", subConn, hs("sub")))
+						subOpen = true
+					}
+				case k < 19:
+					if subOpen {
+						emit(fmt.Sprintf("bk.send %d PUBACK id=%d", subConn, 1+r.Intn(4)))
+					}
 				default:
 					emit("bk.dump")
 				}
